@@ -12,8 +12,35 @@ RULE = ("model: NoLeak (quiescent => no ID reserved, both routing tables empty) 
         "after every driver turn and through the accessor at the quiescent end of every scenario")
 
 
+def extra(chk):
+    """Searches through the adapter chains, incl. paged searches whose pages are separate operations with their own IDs:
+    after finish() at any point (early, at a page boundary, after a failure, read to the end) and settling, no ID may be
+    reserved and the last driver snapshot must show empty routing tables. The behaviours are C16's (TLC: MCStream)."""
+    import os
+    import common as C
+    import streamlane
+    cfg = "MCStream_c16_quick.cfg" if chk.tier == "quick" else "MCStream_c16_thorough.cfg"
+    out = os.path.join(chk.dir, "mcstream.out")
+    res = C.tlc("MCStream", cfg, out, workers=4, timeout=1800, heap="2g")
+    chk.model("MCStream/" + cfg, res)
+    rp = os.path.join(chk.dir, "stream-replay.json")
+    C.harness("stream-run", ["replay", out, rp], timeout=1800)
+    os.remove(out)
+    rep = C.load(rp)
+    mine, rest = streamlane._own_view(rep, "c13:")
+    mine["lane"] = "stream-replay (quiescence after finish)"
+    chk.report(mine, "S->I: MCStream behaviours, connection state at the quiescent point after finish()")
+    n = rep["counters"].get("quiescent-after-finish", 0)
+    n2 = rep["counters"].get("quiescent-after-finish:paged-beyond-first-page", 0)
+    chk.extra["stream_quiescent_points"] = dict(total=n, paged_beyond_first_page=n2)
+    if n2 == 0:
+        chk.tool_error("vacuity: no paged search was finished beyond its first page")
+    chk.rule.append("stream lane: %d behaviours ended with finish() on a live connection (%d of them on the second or a later page "
+                    "of a paged search); used IDs (accessor) and routing-table keys (last driver snapshot) must be empty there" % (n, n2))
+
+
 def run(tier):
-    return L.run_lane("C13", tier, MC[tier], PROFILES[tier], RULE, scripts=SCRIPTS[tier], selftests=[("snapshot", L.corrupt_snapshot, "inv:NoLeak")])
+    return L.run_lane("C13", tier, MC[tier], PROFILES[tier], RULE, scripts=SCRIPTS[tier], selftests=[("snapshot", L.corrupt_snapshot, "inv:NoLeak")], extra=extra)
 
 
 def replay(path):
